@@ -89,7 +89,8 @@ DoIssueDenom(s, who, c, mintR, updateR, meta) ==
 
 (* msg_server.go MintNFT -> nft.go SaveNFT -> x/nft Mint / mintWithNoCheck *)
 DoMintNFT(s, who, c, id, to, n, u, h, d) ==
-  IF ~HasClass(s, c) THEN Fail(s, "no_class")                      \* GetDenomInfo
+  IF d = KEEP THEN Fail(s, "invalid_data")       \* ValidateBasic: the sentinel is not JSON
+  ELSE IF ~HasClass(s, c) THEN Fail(s, "no_class")                      \* GetDenomInfo
   ELSE IF s.cls[c].mintR /\ s.cls[c].creator # who THEN Fail(s, "mint_restricted")
   ELSE IF HasNFT(s, c, id) THEN Fail(s, "nft_exists")              \* x/nft Mint
   ELSE Done(WithQ(
